@@ -1015,6 +1015,55 @@ fn oversized_entry_family(seed: u64, n: usize) -> (Evidence, Vec<Violation>) {
 	(ev, violations)
 }
 
+/// Directed family: request and response limits differ (1 KiB for requests, the default for responses) and the handlers
+/// answer with far more than they are sent, so that the reply array lies between the two limits: only the RESPONSE limit may
+/// replace an array, and it is nowhere near. Through the tower service and through the low-level `ws::connect` assembly.
+fn unequal_limits_family(seed: u64, n: usize) -> (Evidence, Vec<Violation>) {
+	let mut ev = Evidence::new("");
+	let mut violations = Vec::new();
+	block_on_virtual(async {
+		let mut r = Rng::new(seed ^ 0x71e9);
+		let grow = || {
+			let mut m = jsonrpsee_server::RpcModule::new(());
+			m.register_method("grow", |p, _, _| {
+				let n: usize = p.one().unwrap_or(0);
+				"g".repeat(n)
+			})
+			.unwrap();
+			m.register_method("sentinel", |_, _, _| 1u8).unwrap();
+			m
+		};
+		let cfg = ServerConfig::builder().max_connections(100_000).max_request_body_size(1024).set_batch_request_config(BatchRequestConfig::Unlimited).build();
+		let low = jrv::lowlevel::LowLevel::new(cfg.clone(), grow());
+		let srv = MemServer::new(cfg, grow());
+		let log = Log::default();
+		for i in 0..n {
+			let k = 2 + r.usize(4);
+			let sizes: Vec<usize> = (0..k).map(|_| 300 + r.usize(300)).collect();
+			let batch = format!("[{}]", sizes.iter().enumerate().map(|(j, s)| format!("{{\"jsonrpc\":\"2.0\",\"id\":{j},\"method\":\"grow\",\"params\":[{s}]}}")).collect::<Vec<_>>().join(","));
+			for entry in ["tower-ws", "ws-connect"] {
+				let ws = if entry == "tower-ws" { srv.ws().await.ok() } else { low.ws().await.ok() };
+				let Some(ws) = ws else { continue };
+				let o = ws_batch_probe(ws, &log, batch.as_bytes(), &format!("sentinel-ul-{seed}-{i}")).await;
+				ev.eval();
+				ev.count("unequal_limits_batches", 1);
+				let arr: Option<Vec<Value>> = if o.frames.len() == 1 { serde_json::from_slice::<Value>(&o.frames[0]).ok().and_then(|v| v.as_array().cloned()) } else { None };
+				let ok = arr.as_ref().is_some_and(|a| a.len() == k && sizes.iter().enumerate().all(|(j, s)| a.iter().any(|x| x["id"] == json!(j) && x["result"].as_str().map(|t| t.len()) == Some(*s))));
+				if ok {
+					ev.nontrivial(&("unequal-limits", seed, i, entry));
+				} else {
+					violations.push(Violation::new(
+						format!("array-replaced-although-it-fits/request-limit-below-reply-size/{entry}"),
+						format!("max_request_body_size 1024, max_response_body_size default: a batch of {k} calls whose replies have {:?} bytes was answered {:?}", sizes, o.frames.iter().map(|f| b2s(f)).collect::<Vec<_>>()),
+						json!({"family": "unequal-limits", "seed": seed, "entry": entry, "batch": batch}),
+					));
+				}
+			}
+		}
+	});
+	(ev, violations)
+}
+
 fn main() {
 	let ctx = Ctx::from_env("C02", "exploration");
 	install_panic_capture(true);
@@ -1065,6 +1114,14 @@ fn main() {
 		let n = ctx.tier.pick(1_600usize, 64_000);
 		let max_len = ctx.tier.pick(6, 8);
 		let res = run_parallel((0..16u64).collect(), |_, shard| directed_cfg_family(Rng::fork(seed, 5_000_000 + shard).next_u64(), n / 16, max_len));
+		for (e, v) in res {
+			ev.merge(e);
+			violations.extend(v);
+		}
+	}
+	if ctx.replay.is_none() {
+		let n = ctx.tier.pick(20usize, 1_000);
+		let res = run_parallel((0..16u64).collect(), |_, shard| unequal_limits_family(Rng::fork(seed, 7_000_000 + shard).next_u64(), n));
 		for (e, v) in res {
 			ev.merge(e);
 			violations.extend(v);
